@@ -940,6 +940,15 @@ func (c14) Gen(rt *rapid.T, thorough bool) any {
 		s.FaultDir = []string{rapid.SampledFrom([]string{"readdir", "info", "remove", "readdir-once", "readdir-once", "open-once", "open-once"}).Draw(rt, "dirfault_kind")}
 	}
 	s.Touch = rapid.IntRange(0, 3).Draw(rt, "touch") == 0
+	if s.Touch && rapid.Bool().Draw(rt, "touch_preset") && len(s.Pop) > 0 {
+		// the case the touch is about: an own file a little younger than MaxAge, touched while the
+		// clock moves on by whole intervals, several cleanups before and after
+		s.Interval = "h"
+		s.MaxAge = rapid.SampledFrom([]int{24, 48, 168}).Draw(rt, "touch_max_age")
+		s.Pop[0] = PopFile{Name: "app.log.20230301000000", AgeH: s.MaxAge - 2, AgeMin: rapid.SampledFrom([]int{0, 20}).Draw(rt, "touch_age_min"), Size: 5}
+		s.Clock = []int{ckAfterBoundary, ckPlusInterval, ckAfterBoundary, ckPlusInterval, ckAfterBoundary}
+		s.FaultDir = nil
+	}
 	if rapid.IntRange(0, 5).Draw(rt, "dst") == 0 {
 		// a retention window that contains a change of the local UTC offset: MaxAge is in elapsed
 		// hours, whatever the wall clock did in between. The run begins two days after the zone
@@ -1051,7 +1060,7 @@ func (c14) Run(x *Exec, scn any) {
 	touched := map[string]time.Time{}
 	touches := 0
 	x.Sim.AddEnv(&verifsim.EnvAction{Name: "touch", Enabled: func() bool { return s.Touch && touches < 2 && len(s.Pop) > 0 }, Run: func() {
-		pf := s.Pop[(int(s.Knobs.MapSeed)+touches)%len(s.Pop)]
+		pf := s.Pop[(int(s.Knobs.MapSeed)*touches+touches)%len(s.Pop)] // the first touch goes to the first file
 		touches++
 		if !pf.Dir && x.FS.SetMtime(rollDir+"/"+pf.Name, verifsim.Now()) {
 			touched[pf.Name] = verifsim.Now()
